@@ -357,6 +357,7 @@ def program(r, size=3):
 # stages 3..6: global values, top-level functions, early returns, definitions after start.
 # stage 7: local functions in the body of `start` that capture and change its mutable locals.
 # stage 8: local functions in nested blocks, if-branches and loop bodies too.
+# stage 9: strings (literals, concatenation with +, comparisons, ==, <=>, print).
 
 class FragGen:
     def __init__(self, r, stage=1):
@@ -389,8 +390,22 @@ class FragGen:
             return "%s(%s)" % (f, ", ".join(str(r.randint(0, 3)) if r.random() < 0.5 else self.int_expr(env, 0) for _ in range(n)))
         return self.int_expr(env, d - 1)
 
+    def str_expr(self, env, d):
+        r = self.r
+        strs = env.get("strs", [])
+        if d <= 0 or r.random() < 0.4:
+            if strs and r.random() < 0.6:
+                return r.choice(strs)
+            return '"%s"' % "".join(r.choice("abc xyz,.!-012") for _ in range(r.randint(0, 5)))
+        k = r.random()
+        if k < 0.75:
+            return "(%s + %s)" % (self.str_expr(env, d - 1), self.str_expr(env, d - 1))
+        return "(if %s do %s else %s end)" % (self.bool_expr(env, d - 1), self.str_expr(env, d - 1), self.str_expr(env, d - 1))
+
     def bool_expr(self, env, d):
         r = self.r
+        if self.stage >= 9 and d > 0 and r.random() < 0.2:
+            return "(%s %s %s)" % (self.str_expr(env, d - 1), r.choice(["<", "<=", ">", ">=", "==", "!="]), self.str_expr(env, d - 1))
         if d <= 0 or r.random() < 0.2:
             if env["bools"] and r.random() < 0.6:
                 return r.choice(env["bools"])
@@ -414,6 +429,25 @@ class FragGen:
                 # stage 4c': a local function in a nested list (block, branch, loop body); it captures the variables of
                 # this execution of the list, assigns a captured mutable one, and is called until the end of the list
                 out += self.local_function(env, ind)
+                continue
+            if self.stage >= 9 and r.random() < 0.3:
+                # stage 4d-s: strings -- literals, + (concatenation), comparisons, ==, <=>, print
+                env.setdefault("strs", []); env.setdefault("mstrs", [])
+                k = r.random()
+                if k < 0.35:
+                    x = self.fresh("s")
+                    mut = r.random() < 0.5
+                    out.append("%s%s %s %s" % (pad, x, ":=" if mut else "::", self.str_expr(env, 2)))
+                    env["strs"].append(x)
+                    if mut:
+                        env["mstrs"].append(x)
+                elif k < 0.5 and env["mstrs"]:
+                    out.append("%s%s %s %s" % (pad, r.choice(env["mstrs"]), r.choice(["=", "+="]), self.str_expr(env, 1)))
+                elif k < 0.6:
+                    e = self.str_expr(env, 1)
+                    out.append("%s%s <=> %s" % (pad, e, e))
+                else:
+                    out.append("%sprint(%s)" % (pad, self.str_expr(env, 2)))
                 continue
             k = r.random()
             if k < 0.25:
